@@ -51,6 +51,17 @@ def handle : Handler
     let (bf, rest) ← takeList rest
     if !rest.isEmpty then none
     pure (encStr (defFinishExpr da bf b c s cfg))
+  | "cachedeco" :: b :: s :: rest => do
+    let b ← decBool b; let s ← decStr s
+    let (cfg, rest) ← takeCfg rest
+    let (bf, rest) ← takeList rest
+    if !rest.isEmpty then none
+    pure (encStr (cacheDecoratorExpr bf b s cfg))
+  | "calltag" :: e :: rest => do
+    let e ← decStr e
+    let (cfg, rest) ← takeCfg rest
+    if !rest.isEmpty then none
+    pure (encStr (callTagExpr e cfg))
   | "pipeline" :: rest => do
     let (cfg, rest) ← takeCfg rest
     let (args, rest) ← takeList rest
